@@ -10,6 +10,7 @@ package cache
 
 //@ type Cache
 //@   immutable m, closeNotify
+//@   invariant self.m != nil
 
 // the capacity the property promises for a configured size: at least the documented minimum
 //@ spec func capacityOf(size int) int = ite(size < 1024, 1024, size)
@@ -29,8 +30,7 @@ package cache
 // Get (C05, C11): an entry whose expiry lies before now is never returned (and is removed).
 //@ func (c *Cache) Get [C05, C11]
 //@   log cacheGet
-//@   requires c != nil && c.m != nil
-//@   modifies *
+//@   requires c != nil
 //@   ensures calls(mapGet) == 1 && arg(mapGet, 0, 0) == c.m
 //@   ensures ok ==> ret(mapGet, 0, 1) && v == aftercall(mapGet, 0, ret(mapGet, 0, 0).v) && calls(timeNow) == 1 && !(aftercall(mapGet, 0, ret(mapGet, 0, 0).expirationTime.ns) < ret(timeNow, 0).ns) && calls(mapDel) == 0
 //@   ensures ret(mapGet, 0, 1) && aftercall(mapGet, 0, ret(mapGet, 0, 0).expirationTime.ns) < ret(timeNow, 0).ns ==> !ok && calls(mapDel) == 1
@@ -38,8 +38,7 @@ package cache
 // Store (C05, C11): an entry already expired is not admitted; otherwise exactly one Set under the given key.
 //@ func (c *Cache) Store [C05, C11]
 //@   log cacheStore
-//@   requires c != nil && c.m != nil
-//@   modifies *
+//@   requires c != nil
 //@   ensures calls(timeNow) == 1 && calls(mapSet) == ite(ret(timeNow, 0).ns > expirationTime.ns, 0, 1)
 //@   ensures calls(mapSet) == 1 ==> arg(mapSet, 0, 0) == c.m && fresh(arg(mapSet, 0, 2)) && atcall(mapSet, 0, arg(mapSet, 0, 2).v == v && arg(mapSet, 0, 2).expirationTime == expirationTime)
 
